@@ -461,3 +461,5 @@ func (l *live) dump(path string) {
 
 var _ = jt808.NewJTMessage
 var _ = fmt.Sprint
+
+func service_VerifSetHookNil() { service.VerifSetHook(nil) }
